@@ -166,7 +166,13 @@ class LRUTrieNode(object):
 
                 while True:
                     block += self.storage.block_size
-                    data = struct.unpack(LRU_TRIE_NODE_FORMAT, self.storage.read(block))
+                    raw = self.storage.read(block)
+
+                    # The tail may be missing if a write was interrupted
+                    if raw is None:
+                        break
+
+                    data = struct.unpack(LRU_TRIE_NODE_FORMAT, raw)
                     chars = data[LRU_TRIE_NODE_STEM]
 
                     chunks.append(chars)
